@@ -173,6 +173,21 @@ var oddities = []string{
 	"a = b ? (c, d) : e", "a = (b, c)", "for((a in b);;);", "for(var a = (b in c);;);", "for(a = (x => y in z);;);", "x = (function(){}).name", "x = (class{}).name", "({}).x", "({a} = b)", "[a] = b", "(function(){})()", "(class{})", "(() => {})()", "`${{}}`",
 }
 
+// contextual keywords as names of properties, fields and bindings in every spelling: what the printer writes for one
+// spelling (shorthand, quoted, with a default value) must read back as the same property
+func init() {
+	for _, kw := range []string{"get", "set", "async", "static", "of", "let", "await", "yield", "as", "from", "target", "accessor"} {
+		for _, f := range []string{
+			"({%[1]s: %[1]s = 1}) => %[1]s", "({'%[1]s': %[1]s = 0}) => 1", "var {%[1]s: %[1]s = 1, x} = y", "({%[1]s: %[1]s} = x)", "({%[1]s = 1} = x)", "x = {%[1]s}", "x = {%[1]s, y}", "x = {%[1]s: 1}", "x = {'%[1]s': 1}",
+			"x = {%[1]s(){}}", "x = {get %[1]s(){}, set %[1]s(v){}}", "x = {async %[1]s(){}, *%[1]s(){}}", "[{%[1]s = 2}] = x", "for ({%[1]s = 1} of x);",
+			"class A { %[1]s = 1 }", "class A { '%[1]s' = 1 }", "class A { static %[1]s = 1 }", "class A { static '%[1]s' = 1 }", "class A { %[1]s; x }", "class A { static %[1]s; x }", "class A { static '%[1]s'; x }",
+			"class A { %[1]s(){} }", "class A { static %[1]s(){} }", "class A { static '%[1]s'(){} }", "class A { get %[1]s(){} static set %[1]s(v){} }", "class A { static async %[1]s(){} static *%[1]s(){} }", "class A { '%[1]s'(){} ['%[1]s']; }",
+		} {
+			oddities = append(oddities, fmt.Sprintf(f, kw))
+		}
+	}
+}
+
 func corpusWithOddities() []string {
 	return append(append([]string(nil), gen.Corpus("js")...), oddities...)
 }
